@@ -186,7 +186,8 @@ def check(ctx):
                     cq_dirty = dirty.get(d.a["cls"], set())
                     eff = [e for e in later[later.index(disp[0]):] if is_effect(e)]
                     lk = [e for e in later if e.kind == "LOOKUP"]
-                    keyed_by_default = all(e.a["key"] == NONE for e in lk)
+                    # (lookups that can only happen after a hit under the default key - which no registry has - do not count)
+                    keyed_by_default = all(e.a["key"] == NONE for e in lk if not _after_impossible_hit(later, e))
                     feasible_eff = [e for e in eff if not _after_impossible_hit(later, e)]
                     ok = "msgId" not in cq_dirty and keyed_by_default and not feasible_eff
                     ctx.ob("E1", "%s dispatch after a failed decode of %s is without effect" % (cq, tr.name), ok, where=where(disp[0]),
